@@ -225,6 +225,63 @@ def node_level_patterns(res: Result, tier: str) -> list:
             break
     res.count("node-level send() scripts", n)
     res.cases += n
+    if fails:
+        return fails
+    # two connections with output pending in the same pass of the I/O loop, each with its own script of send() outcomes
+    # (a partial write on one, a soft error on the other, in either socket order): what each socket accepted is what it
+    # accepts without scripts
+    cfg2 = ("host=node.local;realm=realm.local;idle=30;cea=4;dwa=4;peer:peer1.x,realm.local,0,0,30,1,0,-,-,-,-;"
+            "peer:peer2.x,realm.local,0,0,30,1,0,-,-,-,-;app:4,1,0,b,0,0+1,-")
+    pre2 = ["start", "acc", "acc", "rx 0 " + nodegen.cer("peer1.x", "4", 11, 12), "rx 1 " + nodegen.cer("peer2.x", "4", 13, 14)]
+    bursts = ["rx %d " % k + " ".join(nodegen.dwr(41 + 10 * k + 2 * i, 42 + 10 * k + 2 * i, "peer%d.x" % (k + 1)) for i in range(3))
+              for k in (0, 1)]
+
+    def run_two(scripts, order):
+        sm = simmod.Sim(cfg2)
+        try:
+            for ev in pre2:
+                sm.event(ev)
+            for _ in range(3):
+                sm.event("tick")
+            sks = [sm.sock(0), sm.sock(1)]
+            base = [len(sk.sent) for sk in sks]
+            for k in (0, 1):
+                if scripts[k]:
+                    sm.event(f"wr {k} " + ",".join(scripts[k]))
+            # (the sockets take nothing until both connections have output pending: both are writable in one and the same pass)
+            for k in (0, 1):
+                sm.event(f"block {k} 1")
+            for k in order:
+                sm.event(bursts[k])
+            for sk in sks:                    # (both at once: `block k 0` would flush one connection before the other)
+                sk.writable = True
+            for _ in range(8):
+                sm.event("tick")
+            return [bytes(sk.sent[b:]) for sk, b in zip(sks, base)], [l for l in sm.obs if l.startswith("CRASH")]
+        finally:
+            sm.close()
+    want2, _ = run_two([[], []], (0, 1))
+    alpha2 = [[], ["7"], ["40"], ["soft"], ["softB"], ["1", "soft"], ["soft", "7"], ["7", "softI", "40"]]
+    n2 = 0
+    for a, b in itertools.product(alpha2, repeat=2):
+        if not a and not b:
+            continue
+        for order in ((0, 1), (1, 0)):
+            n2 += 1
+            got, crashes = run_two([a, b], order)
+            if got != want2 or crashes:
+                fails.append({"what": "the bytes accepted by a socket are not the messages queued for its connection in order, each "
+                                      "once (whole node, two connections writable in one pass of the I/O loop, send() outcomes "
+                                      "scripted per connection and call)", "kind": "node-level",
+                              "line": "NODE " + cfg2 + " | " + " | ".join(pre2) + " | tick x3 | wr 0 " + ",".join(a) + " | wr 1 " +
+                                      ",".join(b) + " | block 0 1 | block 1 1 | " + " | ".join(bursts[k] for k in order) + " | both sockets writable again | tick x8",
+                              "script": [list(a), list(b)], "real": [g.hex()[:300] for g in got],
+                              "expected": [w.hex()[:300] for w in want2]})
+                break
+        if fails:
+            break
+    res.count("node-level send() scripts on two connections", n2)
+    res.cases += n2
     return fails
 
 
